@@ -8,9 +8,7 @@
 package common
 
 //@ -- NewInteger(x) is x * 10^Precision as a big integer; no effects. ASSUMED (math.Pow / big.Int arithmetic not modelled).
-//@ assume func NewInteger
-//@   modifies nothing
-//@   ensures val(result) == x * 100000000
+//@ -- NewInteger: VERIFIED contract in zz_contracts_c33_text_verif.go (modifies nothing; val(v) == x * 100000000)
 
 //@ -- CheckKey decodes the point (edwards25519, external): no effects on program state. ASSUMED frame.
 //@ -- (crypto.Key).CheckKey: assumed pure contract in crypto/zz_contracts_c05_verif.go
